@@ -90,10 +90,13 @@ def _insert_cfg(name, ctxname, core):
                lambda rd, m: ('expr',) + rd.exact_roundables(), core=core)
 
 
-def _split_cfg(name, factor, strategy, core):
+def _split_cfg(name, factor, strategy, core, as_int=False):
+    # `sites` forwards its kwargs to SplitLoop.sites, whose `factor` is an AST expression (the repository's
+    # own tests pass Integer(2, None)); `as_int` passes the int that `split` itself takes, as the docstring
+    # of `sites` ("pass the same arguments the rewrite will get") suggests
     st = getattr(SplitLoopStrategy, strategy)
     return Cfg(name, ST.split, 'stmt',
-               lambda m: {'factor': Integer(factor, None), 'strategy': st},
+               lambda m: {'factor': factor if as_int else Integer(factor, None), 'strategy': st},
                lambda f, w, m: ST.split(f, factor, where=w, strategy=st),
                lambda rd, m: ('stmt', rd.stmts_of(A.ForStmt), True), core=core)
 
@@ -137,6 +140,7 @@ CONFIGS: list[Cfg] = [
     _insert_cfg('insert_round:FP16', 'FP16', False),
     _split_cfg('split:2:STRICT', 2, 'STRICT', False),
     _split_cfg('split:3:PEEL', 3, 'PEEL', False),
+    _split_cfg('split:2:STRICT:int-factor', 2, 'STRICT', False, as_int=True),
     _unroll_for_cfg('unroll_for:1:STRICT', 1, 'STRICT', False),
     _unroll_for_cfg('unroll_for:2:PEEL', 2, 'PEEL', False),
     _unroll_while_cfg('unroll_while:2', 2, False),
@@ -173,13 +177,14 @@ class Ctx:
 
 
 class State:
-    __slots__ = ('func', 'rd', 'hist', 'untouched')
+    __slots__ = ('func', 'rd', 'hist', 'untouched', 'chain')
 
-    def __init__(self, func, rd, hist, untouched):
+    def __init__(self, func, rd, hist, untouched, chain):
         self.func = func
         self.rd = rd
         self.hist = hist              # list of [cfgname, wherespec]
         self.untouched = untouched    # original path -> current path (independently tracked)
+        self.chain = chain            # reported edits of every step, as tuples
 
 
 def _where_str(w):
@@ -414,6 +419,34 @@ class Explorer:
         if not good:
             return None
 
+        # a statement an edit consumed forwards to exactly what replaced it
+        for sp in spans:
+            r.count('transitions')
+            ref = G.ref_chain([edits], sp)
+            try:
+                img = log.forward(StmtCursor(st.func.ast, G.to_stmt_path(sp)))
+            except TransformReferenceError:
+                img = None
+            except Exception as e:  # noqa: BLE001
+                self.bad('where', cfg.name, 'consumed-forward-raises:' + type(e).__name__, hist,
+                         f'forwarding consumed statement {sp} raised {e!r}; edits {edits}')
+                good = False
+                continue
+            if img is None:
+                got = ('raise',)
+            elif isinstance(img, BlockCursor):
+                got = ('region', G.block_tuple(img.block_path), img.span.start, len(img.span))
+            else:
+                got = ('stmt', G.path_tuple(img.path))
+            if got[0] != 'raise' and ref[0] != 'raise' and got != ref:
+                self.bad('where', cfg.name, 'consumed-statement-image-differs-from-edit', hist,
+                         f'statement {sp} was consumed by a reported edit {edits}; replaying the edits puts its '
+                         f'replacement at {ref}, forward gave {got}\n--- before ---\n{st.func.format()}\n'
+                         f'--- after ---\n{out.format()}')
+                good = False
+        if not good:
+            return None
+
         # the selected sites were rewritten, the unselected were not
         def image_text(q):
             """Text of what stands where statement q stood, by the reference model."""
@@ -520,7 +553,7 @@ class Explorer:
                          f'{len(where_now)} times afterwards\n{t}\n--- after ---\n{out.format()}')
                 return None
             unt[p0] = where_now[0]
-        new = State(out, rd2, hist, unt)
+        new = State(out, rd2, hist, unt, st.chain + [edits])
         changed = bool(edits) or bool(dirty)
         if changed:
             r.count('steps_changing_program')
@@ -544,6 +577,8 @@ class Explorer:
                              f'cursor on {p0} `{t0.splitlines()[0]}`: no reported edit touched it, yet forward raised {e!r}'
                              f'\n--- final ---\n{st.func.format()}', {'cursor': list(p0)})
                 r.outcomes['fwd:reference-error'] += 1
+                if G.ref_chain(st.chain, p0)[0] != 'raise':
+                    r.outcomes['fwd:raises-where-replay-resolves'] += 1
                 moved = True
                 continue
             except Exception as e:  # noqa: BLE001
@@ -558,9 +593,20 @@ class Explorer:
             if isinstance(img, BlockCursor):
                 text = '\n'.join(s.format() for s in res)
                 ipath = None
+                got = ('region', G.block_tuple(img.block_path), img.span.start, len(img.span))
             else:
                 text = res.format()
                 ipath = G.path_tuple(img.path)
+                got = ('stmt', ipath)
+            ref = G.ref_chain(st.chain, p0)
+            if ref[0] == 'raise':
+                r.outcomes['fwd:resolves-where-replay-raises'] += 1
+            elif ref != got:
+                self.bad('forward', last, 'image-differs-from-replay-of-reported-edits', st.hist,
+                         f'cursor on {p0} `{t0.splitlines()[0]}`: replaying the reported edits {st.chain} gives {ref}, '
+                         f'forward gave {got}\n--- image ---\n{text}\n--- final ---\n{st.func.format()}',
+                         {'cursor': list(p0)})
+                continue
             if p0 in st.untouched:
                 want = st.untouched[p0]
                 if ipath != want or text != t0 or not res.is_equiv(cx.rd0.by_path[p0]):
@@ -710,7 +756,7 @@ def explore_program(r: ShardResult, name: str, src: str, depth: int, variants=Tr
         raise RuntimeError(f'generator bug: statements of {name} are not textually unique')
     r.count('programs')
     r.count('states')
-    root = State(cx.f0, cx.rd0, [], {p: p for p in cx.texts0})
+    root = State(cx.f0, cx.rd0, [], {p: p for p in cx.texts0}, [])
     ex = Explorer(r, cx, depth, variants)
     if path is not None:
         ex.follow(root, path, final_cfg)
@@ -741,7 +787,7 @@ class Check(BaseCheck):
     rule = ('every program of the grammar (8 loop-nest skeletons x every assignment of 2 leaf slots from the '
             'tier alphabet; each statement uniquely marked) x every history of aimable-strategy applications '
             '(10 strategies in the history alphabet x where in {0..k-1, None}; on the original program also '
-            'where=sites[j], where in {k,k+1,-1} and 9 parameter variants) up to the tier depth, each step of '
+            'where=sites[j], where in {k,k+1,-1} and 10 parameter variants) up to the tier depth, each step of '
             'which changes the program except possibly the last; listing, where and forward oracles from an '
             'independent reading of the AST.  nontrivial = histories whose last step changed the program and '
             'after which at least one original cursor moved, became a region or raised')
